@@ -3,6 +3,7 @@
 package c02
 
 import (
+	"fmt"
 	"bytes"
 	"strings"
 	"testing"
@@ -29,6 +30,11 @@ type Case struct {
 	// non-cacheable: then only "same verdict before and after" is required.
 	Conforming bool `json:"conforming"`
 	ReadMode   int  `json:"read_mode,omitempty"` // how the written file is handed to ReadExchange (gen.Source)
+	// Colliding: the header map holds two (or three) keys that differ only in letter case, among
+	// enough other fields that they are rarely neighbours in map iteration order. The library may
+	// refuse to sign or write such an exchange; what it agrees to sign and write must read back
+	// and verify like any other.
+	Colliding bool `json:"colliding,omitempty"`
 	// UsedSigner: format version of an unrelated exchange that the SAME Signer object signed before
 	// ("" = fresh signer).
 	UsedSigner string `json:"used_signer,omitempty"`
@@ -120,6 +126,13 @@ var prop = vh.Define("C02", "roundtrip", func(c Case, r *vh.R) {
 		e, _, err = sxgkit.BuildWithUsedSigner(s, c.UsedSigner)
 		r.Class("used-signer")
 	}
+	if c.Colliding {
+		r.Class("colliding-header-keys")
+		if err != nil {
+			r.Class("colliding-refused-at-signing")
+			return
+		}
+	}
 	if err != nil {
 		r.Failf("sign-error", "library refused to sign a well-formed exchange: %v", err)
 		return
@@ -180,6 +193,10 @@ var prop = vh.Define("C02", "roundtrip", func(c Case, r *vh.R) {
 			_, rerr := signedexchange.ReadExchange(bytes.NewReader(buf.Bytes()))
 			r.Failf("write-accepted-oversize", "Write succeeded although %s (url=%d sig=%d headers=%d bytes); reading the file back: err=%v", why, ul, sl, hl, rerr)
 		}
+		return
+	}
+	if werr != nil && c.Colliding {
+		r.Class("colliding-refused-at-write")
 		return
 	}
 	if werr != nil {
@@ -337,6 +354,15 @@ func TestPropRoundTrip(t *testing.T) {
 		case 2:
 			// an extra value for Content-Type (multi-valued)
 			c.Spec.ResHeaders = append(c.Spec.ResHeaders, gen.HeaderKV{Name: "content-TYPE", Values: []string{"text/plain"}})
+		case 3:
+			c.Colliding = true
+			for i := 0; i < 8; i++ {
+				c.Spec.ResHeaders = append(c.Spec.ResHeaders, gen.HeaderKV{Name: fmt.Sprintf("X-Pad-%d", i), Values: []string{"p"}})
+			}
+			c.Spec.ResHeaders = append(c.Spec.ResHeaders, gen.HeaderKV{Name: "X-Variant", Values: []string{"a"}, Force: true}, gen.HeaderKV{Name: "x-variant", Values: []string{"b"}, Force: true})
+			if rapid.Bool().Draw(t, "third") {
+				c.Spec.ResHeaders = append(c.Spec.ResHeaders, gen.HeaderKV{Name: "X-VARIANT", Values: []string{"c"}, Force: true})
+			}
 		}
 		return c
 	})
